@@ -424,7 +424,8 @@ def gen_Tol():
         ("magpylib._src.fields.field_BH_tetrahedron", ["check_chirality", "point_inside", "BHJM_magnet_tetrahedron"]),
         ("magpylib._src.fields.field_BH_circle", ["current_circle_Hfield", "BHJM_circle"]),
         ("magpylib._src.fields.special_cel", ["cel0", "cel_iter0", "cel_iterv", "cel_iter", "cel"]),
-        ("magpylib._src.fields.field_BH_triangularmesh", ["mask_inside_enclosing_box", "mask_inside_trimesh", "BHJM_magnet_trimesh"]),
+        ("magpylib._src.fields.field_BH_triangularmesh", ["mask_inside_enclosing_box", "mask_inside_trimesh", "lines_end_in_trimesh", "is_facet_inwards", "BHJM_magnet_trimesh"]),
+        ("magpylib._src.fields.field_BH_cylinder", ["magnet_cylinder_axial_Bfield", "magnet_cylinder_diametral_Hfield", "BHJM_magnet_cylinder"]),
         ("magpylib._src.utility", ["cart_to_cyl_coordinates", "cyl_field_to_cart"]),
     ]
     opname = {ast.Lt: "<", ast.LtE: "<=", ast.Gt: ">", ast.GtE: ">=", ast.Eq: "==", ast.NotEq: "!="}
